@@ -98,7 +98,9 @@ def reuse_program(rng):
     if rng.random() < 0.4:
         items.insert(rng.randint(0, len(items)), rng.choice([("q", "A B"), ("u", "HI"), ("q", "")]))
     targets = []
-    nv, sv = iter("ABCDEFGH"), iter(["A$", "B$", "C$", "D$", "E$"])
+    import itertools
+
+    nv, sv = itertools.cycle("ABCDEFGH"), itertools.cycle(["A$", "B$", "C$", "D$", "E$", "F$", "G$", "H$"])
     for it in items:
         targets.append(("var", next(nv)) if it[0] in ("n", "h") and rng.random() < 0.8 else ("var", next(sv)))
     e = [_as_expr(c) for c in cs]
